@@ -6,17 +6,20 @@ CURS = ['USD', 'EUR', 'GBP', "A'B.C-D", '/XYZ', 'AB', 'X9']
 
 
 class Profile:
-    def __init__(self, hostile=False, crlf=True, comments=1.0, max_directives=6, kinds=None, blank=True):
+    def __init__(self, hostile=False, crlf=True, comments=1.0, max_directives=6, kinds=None, blank=True, abut=True):
         self.hostile = hostile
         self.crlf = crlf
         self.comments = comments
         self.max_directives = max_directives
         self.kinds = kinds
         self.blank = blank
+        self.abut = abut     # allow `100.00USD`, `USD,EUR`, `;x` right after a token
 
 
 DEFAULT = Profile()
 LF_ONLY = Profile(crlf=False)
+SPACED = Profile(abut=False)
+SPACED_LF = Profile(crlf=False, abut=False)
 HOSTILE = Profile(hostile=True)
 
 
@@ -68,7 +71,7 @@ def tagl(r):
 def icomment(r, p=DEFAULT):
     if r.random() > p.comments:
         return ''
-    return r.choice(['', '', '', ws(r) + '; inline', ';x', ws(r) + ';  two  ', ' ;', ' ; ü "q'])
+    return r.choice(['', '', '', ws(r) + '; inline', ';x' if p.abut else ' ;x', ws(r) + ';  two  ', ' ;', ' ; ü "q'])
 
 
 def metaval(r, p=DEFAULT):
@@ -100,7 +103,7 @@ def cost(r, p=DEFAULT):
     comps = r.sample([expr(r), r.choice(CURS), expr(r) + ' ' + r.choice(CURS), date(r, p), s(r, p), '*',
                       expr(r) + ' # ' + expr(r) + ' ' + r.choice(CURS), '# ' + expr(r) + ' USD', expr(r) + ' # USD'],
                      r.randint(0, 3))
-    body = r.choice([', ', ',', ' , ']).join(comps)
+    body = r.choice([', ', ',', ' , '] if p.abut else [', ', ' , ']).join(comps)
     return r.choice(['{' + body + '}', '{{' + body + '}}', '{ ' + body + ' }'])
 
 
@@ -111,7 +114,7 @@ def posting(r, ind, p=DEFAULT):
     out += r.choice(ACCTS)
     k = r.random()
     if k < 0.7:
-        out += ws(r) + expr(r) + r.choice([ws(r), ws(r), '']) + r.choice(CURS)
+        out += ws(r) + expr(r) + r.choice([ws(r), ws(r), '' if p.abut else ' ']) + r.choice(CURS)
     elif k < 0.8:
         out += ws(r) + expr(r)
     elif k < 0.9:
@@ -154,7 +157,7 @@ def directive(r, p=DEFAULT, kind=None):
         return r.choice(['* org heading', ': x', '# y', '! z', 'P foo', '*', '** nested ; x']) + nl(r, p)
     d = date(r, p)
     if k == 'balance':
-        h = d + w() + 'balance' + w() + r.choice(ACCTS) + w() + expr(r) + r.choice(['', w() + '~' + w() + expr(r), '~' + expr(r)]) + r.choice([w(), '']) + r.choice(CURS)
+        h = d + w() + 'balance' + w() + r.choice(ACCTS) + w() + expr(r) + r.choice(['', w() + '~' + w() + expr(r), ('~' if p.abut else ' ~ ') + expr(r)]) + r.choice([w(), '' if p.abut else ' ']) + r.choice(CURS)
     elif k == 'close':
         h = d + w() + 'close' + w() + r.choice(ACCTS)
     elif k == 'commodity':
@@ -172,7 +175,7 @@ def directive(r, p=DEFAULT, kind=None):
     elif k == 'document':
         h = d + w() + 'document' + w() + r.choice(ACCTS) + w() + s(r, p) + ''.join(w() + tagl(r) for _ in range(r.randint(0, 2)))
     elif k == 'open':
-        h = d + w() + 'open' + w() + r.choice(ACCTS) + r.choice(['', w() + 'USD', w() + 'USD,EUR', w() + 'USD , EUR,  GBP']) + r.choice(['', w() + '"STRICT"'])
+        h = d + w() + 'open' + w() + r.choice(ACCTS) + r.choice(['', w() + 'USD', w() + ('USD,EUR' if p.abut else 'USD, EUR'), w() + 'USD , EUR,  GBP']) + r.choice(['', w() + '"STRICT"'])
     elif k == 'custom':
         h = d + w() + 'custom' + w() + s(r, p) + ''.join(
             w() + r.choice([s(r, p), date(r, p), 'TRUE', expr(r) + ' USD', expr(r), r.choice(ACCTS)]) for _ in range(r.randint(0, 3)))
